@@ -287,6 +287,11 @@ pub fn gen_onchain_case(rng: &mut Rng) -> Vec<String> {
     let mut pending: Option<Commit> = None;
     let mut cur_hold: Option<Commit> = None;
     let mut cur_cp: Option<Commit> = None;
+    // With the on-chain gate downgraded to a warning the commitment state can advance *after* a commitment
+    // transaction confirmed; reorging that block out then makes the unchanged monitor re-read a commitment that
+    // has become the counterparty's PREVIOUS one and panic (finding F-C05-M1).  Until that is fixed in /repo the
+    // random walk confirms real commitment transactions only while the gate is enforced.
+    let spend_kinds: &[u64] = if pol.errs(BIT_ACTIVE_UTXO) { &[2, 3, 4] } else { &[2] };
     let gate_ok = |sim: &ChainSim, n: u64, pol: &Pol| n == 0 || sim.good() || !pol.errs(BIT_ACTIVE_UTXO);
     // a scripted prefix that puts one side ahead of the other, then the free walk
     let mut script: Vec<&str> = match rng.below(6) {
@@ -308,7 +313,7 @@ pub fn gen_onchain_case(rng: &mut Rng) -> Vec<String> {
             "mine" => ops.push(sim.blk(0)),
             // the funding outpoint is spent: by a plain tx (mutual close), by the holder's commitment or by the
             // counterparty's commitment (unilateral closes, outputs not yet swept)
-            "spend" => if sim.can(2) { ops.push(sim.blk(pick_u64(rng, &[2, 3, 4]))) } else if sim.can(1) { ops.push(sim.blk(1)) },
+            "spend" => if sim.can(2) { ops.push(sim.blk(pick_u64(rng, spend_kinds))) } else if sim.can(1) { ops.push(sim.blk(1)) },
             "unblk" => if let Some(l) = sim.unblk() { ops.push(l) },
             "bad" => {
                 // make the chain state bad for new commitments: reorg the funding out, or spend it
@@ -317,7 +322,7 @@ pub fn gen_onchain_case(rng: &mut Rng) -> Vec<String> {
                         while sim.blocks.contains(&1) { ops.push(sim.unblk().unwrap()) }
                     } else {
                         if rng.chance(1, 2) { ops.push(sim.blk(0)) }
-                        ops.push(sim.blk(pick_u64(rng, &[2, 3, 4])));
+                        ops.push(sim.blk(pick_u64(rng, spend_kinds)));
                     }
                 }
             }
@@ -631,6 +636,17 @@ impl Group for C05ChainEvents {
             "cp 1 0 0 1000000 1998000 0 0",
             "blk 5 5 2 1",
             "cp 1 0 0 1000000 1998000 0 0",
+        ]),
+        // the same defect through a reorg: the counterparty's commitment 0 confirms while it is the current one,
+        // commitment 1 is signed afterwards (on-chain gate downgraded to a warning), then the block is disconnected
+        v(&[
+            "policy 1 4 2016 1000000001 10000 1000 16777216 0 253 333333 222000 2048",
+            "setup 0 3000000 0 6 7 1 0 0 0",
+            "blk 1 4 1 0",
+            "cp 0 0 0 0 2998000 0 0",
+            "blk 4 5 2 1",
+            "cp 1 0 0 1000000 1998000 0 0",
+            "unblk 4 1 0",
         ])]
     }
     fn gen_case(&self, _rng: &mut Rng, _tier: Tier) -> Vec<String> {
@@ -639,7 +655,7 @@ impl Group for C05ChainEvents {
     fn exec_case(&self, ops: &[String]) -> CaseOut {
         let mut out = run_case(ops);
         for (i, (op, line)) in ops.iter().zip(out.out.clone().iter()).enumerate() {
-            if op.starts_with("blk 5") {
+            if op.starts_with("blk 5") || op.starts_with("unblk") {
                 if line.starts_with("harness-panic") {
                     out.violations.push(Violation {
                         kind: "chain-event-panic-previous-counterparty-commitment".into(),
@@ -648,13 +664,14 @@ impl Group for C05ChainEvents {
                     });
                 } else {
                     let want: Vec<&str> = op.split_whitespace().collect();
-                    if *line != format!("ok {}", want[2..].join(" ")) {
+                    if *line != format!("ok {}", want[want.len() - 3..].join(" ")) {
                         out.violations.push(Violation { kind: "chain-event-misread".into(), desc: format!("after {} the channel reads the chain as `{}`", op, line), at: i });
                     }
                 }
             }
         }
-        out.nontrivial = out.out.iter().any(|l| l.starts_with("ok 5 2 1")) && out.out.last().map(|l| l.starts_with("err:chain")).unwrap_or(false);
+        out.nontrivial = out.out.iter().any(|l| l.starts_with("ok 5 2 1"))
+            && out.out.last().map(|l| l.starts_with("err:chain") || l.starts_with("ok 4 1 0")).unwrap_or(false);
         out
     }
 }
